@@ -162,6 +162,31 @@ theorem C07_text_spec_table_sorted (n : Nat) (f d : Bool) (texts : List Str) :
     simp only [List.map_map, Function.comp_def, List.map_id']
     exact (distinct_nodup _).filter _
 
+/-- "either `k` or the number of distinct n-grams, whichever is less" -/
+theorem C07_text_spec_topk_length (k n : Nat) (f d : Bool) (texts : List Str) :
+    (MlModel.Spec.Text.topKWordNGrams k n f d texts).length
+      = min k ((MlModel.Spec.Text.distinct (MlModel.Spec.Text.candidates n texts)).filter
+          fun g => 0 < MlModel.Spec.Text.ngramCount n f d g texts).length := by
+  unfold MlModel.Spec.Text.topKWordNGrams MlModel.Spec.Text.ngramTable
+  rw [List.length_take, (isort_perm _).length_eq, List.length_map]
+
+/-- `PatternFrequency` without reference to any row order (its docstring does not promise one): after at
+least one text, exactly one row per pattern, carrying `count / number of texts` -/
+theorem C07_text_patterns_mem (ps : List Str) (dup : Bool) (cfg : PatCfg)
+    (h : PatCfg.make ps dup = .ok cfg) (texts : List Str) (p : Str) (q : Rat) :
+    (p, q) ∈ (patFreq cfg).result ((patFreq cfg).ofBatch texts) ↔
+      texts ≠ [] ∧ p ∈ ps ∧
+        q = MlModel.Spec.Text.freqOf (MlModel.Spec.Text.patCount dup p texts) texts.length := by
+  rw [C07_text_patterns ps dup cfg h]
+  unfold MlModel.Spec.Text.patternTable
+  by_cases ht : texts = []
+  · simp [ht]
+  · simp only [ht, if_false, (isort_perm _).mem_iff, List.mem_map, Prod.mk.injEq, ne_eq,
+      not_false_eq_true, true_and]
+    constructor
+    · rintro ⟨p', hp, rfl, rfl⟩; exact ⟨hp, rfl⟩
+    · rintro ⟨hp, rfl⟩; exact ⟨p, hp, rfl, rfl⟩
+
 /-! Tests (evaluated by the kernel): the specification on the docstring-sized example
 `["a b a b", "A b!"]`, bigrams: `"a b"` starts at 3 positions, `"b a"` at 1. -/
 example : MlModel.Spec.Text.ngramCount 2 false true ['a', ' ', 'b']
